@@ -15,6 +15,7 @@
 #include <vector>
 #include "ola/Callback.h"
 #include "ola/Logging.h"
+#include "ola/io/SelectServer.h"
 #include "ola/thread/ExecutorThread.h"
 #include "ola/thread/Future.h"
 #include "ola/thread/Thread.h"
@@ -353,6 +354,70 @@ static void scen_futcopy(int g) {
   for (int i = 0; i < 1 + g; i++) pthread_join(tids[i], NULL);
 }
 
+// ---- ExecutorThread with callbacks that call Execute again
+static int er_children[64];
+static void er_cb(ExecutorThread *ex, int producer, int seq, int resubmit) {
+  record(producer, seq);
+  if (resubmit) {
+    int me = sch::self->id;
+    int k = er_children[me]++;
+    ex->Execute(ola::NewSingleCallback(record, me, k));
+  }
+}
+struct ErArg { ExecutorThread *ex; int n; int re; };
+static void *er_producer(void *p) {
+  ErArg *a = static_cast<ErArg*>(p);
+  for (int j = 0; j < a->n; j++)
+    a->ex->Execute(ola::NewSingleCallback(er_cb, a->ex, sch::self->id, j, j < a->re ? 1 : 0));
+  return NULL;
+}
+static void scen_execre(const std::vector<int> &lims, const std::vector<int> &rs) {
+  std::vector<ErArg> args(lims.size());
+  std::vector<pthread_t> tids(lims.size());
+  {
+    ExecutorThread ex((Thread::Options()));
+    ex.Start();
+    for (size_t i = 0; i < lims.size(); i++) {
+      args[i].ex = &ex; args[i].n = lims[i]; args[i].re = i < rs.size() ? rs[i] : 0;
+      pthread_create(&tids[i], NULL, er_producer, &args[i]);
+    }
+    ex.Stop();
+    for (size_t i = 0; i < lims.size(); i++) pthread_join(tids[i], NULL);
+  }  // ~ExecutorThread
+}
+
+// ---- the event loop's executor: a real SelectServer, driven by RunOnce() with a zero timeout
+static int ss_children = 0;
+static void ss_cb(ola::io::SelectServer *ss, int producer, int seq, int resubmit) {
+  record(producer, seq);
+  if (resubmit) {
+    int k = ss_children++;
+    ss->Execute(ola::NewSingleCallback(record, sch::self->id, k));
+  }
+}
+struct SsArg { ola::io::SelectServer *ss; int n; int re; };
+static void *ss_producer(void *p) {
+  SsArg *a = static_cast<SsArg*>(p);
+  for (int j = 0; j < a->n; j++)
+    a->ss->Execute(ola::NewSingleCallback(ss_cb, a->ss, sch::self->id, j, j < a->re ? 1 : 0));
+  return NULL;
+}
+static void scen_ss(const std::vector<int> &lims, const std::vector<int> &rs, int k) {
+  std::vector<SsArg> args(lims.size());
+  std::vector<pthread_t> tids(lims.size());
+  {
+    ola::io::SelectServer::Options opt;
+    opt.force_select = true;
+    ola::io::SelectServer ss(opt);
+    for (size_t i = 0; i < lims.size(); i++) {
+      args[i].ss = &ss; args[i].n = lims[i]; args[i].re = i < rs.size() ? rs[i] : 0;
+      pthread_create(&tids[i], NULL, ss_producer, &args[i]);
+    }
+    for (int j = 0; j < k; j++) ss.RunOnce();
+    for (size_t i = 0; i < lims.size(); i++) pthread_join(tids[i], NULL);
+  }  // ~SelectServer: DrainCallbacks
+}
+
 static std::vector<int> ints(const std::string &s) {
   std::vector<int> v;
   if (s == "-" || s.empty()) return v;
@@ -371,6 +436,8 @@ static void child(const std::vector<std::string> &a) {
   if (a[0] == "exec") scen_exec(ints(a[1]));
   else if (a[0] == "futraw") scen_futraw();
   else if (a[0] == "futcopy") scen_futcopy(atoi(a[1].c_str()));
+  else if (a[0] == "execre") scen_execre(ints(a[1]), ints(a[2]));
+  else if (a[0] == "ss") scen_ss(ints(a[1]), ints(a[2]), atoi(a[3].c_str()));
   m->st = sch::ST_DONE;
   sch::dispatch();
   // other threads are still running: the thread that ends the run reports
@@ -380,7 +447,8 @@ static void child(const std::vector<std::string> &a) {
 static std::string handle(const std::string &p) {
   std::vector<std::string> a = vh::split(p);
   if (!(a[0] == "exec" && a.size() == 3) && !(a[0] == "futraw" && a.size() == 2) &&
-      !(a[0] == "futcopy" && a.size() == 3))
+      !(a[0] == "futcopy" && a.size() == 3) && !(a[0] == "ss" && a.size() == 5) &&
+      !(a[0] == "execre" && a.size() == 4))
     return "bad-op";
   int fds[2];
   if (pipe(fds)) return "end=pipe-failed";
